@@ -16,7 +16,7 @@ import (
 
 func init() { register(&Monitor{ID: "C06", Run: runC06, Self: selfC06}) }
 
-var c06Keys = []string{"", "a", "b", "c", ".", "#", "a.b", "a#1", "k\"q", "é", "key with space", string(rune(0x1f600)), "\x00", "A"}
+var c06Keys = []string{"", "a", "b", "c", ".", "#", "a.b", "a#1", "k\"q", "é", "key with space", string(rune(0x1f600)), "\x00", "A", ".a", ".b", ".a.b", "a#0", "b.a", "a.a", ".a#0", "#0"}
 
 func c06Key(r *rng.R) string {
 	if r.Chance(1, 12) {
@@ -200,6 +200,24 @@ func c06Program(p *prog, steps int) {
 		real := o.Object()
 		existing := o.SortedKeys()
 		pickKey := func() string {
+			if len(existing) > 0 && r.Chance(1, 8) {
+				// a key spelled like a tree-form path that resolves inside a nested container (it is still just a key)
+				k := existing[r.Intn(len(existing))]
+				if v := o.M[k]; v.Ref != nil {
+					sfx := "#0"
+					if v.Ref.K == spec.Obj {
+						sfx = ".x"
+						if ks := v.Ref.SortedKeys(); len(ks) > 0 {
+							sfx = "." + ks[r.Intn(len(ks))]
+						}
+					}
+					if r.Bool() {
+						return k + sfx
+					}
+					return "." + k + sfx
+				}
+				return "." + k
+			}
 			if len(existing) > 0 && r.Chance(2, 3) {
 				return existing[r.Intn(len(existing))]
 			}
